@@ -129,7 +129,9 @@ def cases(tier, seed):
                    roi=[int(r.choice([8, 9, 12])), int(r.choice([8, 10, 11]))],
                    rotation=[None, 0.0, float(r.uniform(-3, 3))][i % 3],
                    padding=[None, [float(r.uniform(0, 10)), float(r.uniform(0, 10))]][(i // 3) % 2],
-                   via=["static", "preprocess"][(i // 2) % 2])
+                   via=["static", "preprocess"][(i // 2) % 2],
+                   # explicit positions next to a known raster shape (4-D data with refined positions): still J pairs in order
+                   layout=["flat", "grid", "flat", "grid", "grid"][i % 5])
 
     # full reconstruction loop from the truth
     for i in range(BOUNDS["reconstruct_cases"][tier]):
@@ -418,15 +420,19 @@ def _run_positions(case):
     j = len(pos)
     sampling = tuple(case["sampling"])
     roi = tuple(case["roi"])
+    grid = None
+    if case.get("layout") == "grid":
+        a = next(d for d in (3, 2, 1) if j % d == 0)
+        grid = (a, j // a) if (j + len(case["positions"])) % 4 else (j // a, a)
     if case["via"] == "static":
-        ep = dict(grid_scan_shape=None, scan_step_sizes=None, rotation_angle=case["rotation"],
+        ep = dict(grid_scan_shape=grid, scan_step_sizes=None if grid is None else (0.7, 0.9), rotation_angle=case["rotation"],
                   object_px_padding=case["padding"])
         got, _ = Op._calculate_scan_positions_in_pixels(pos.copy(), sampling, roi, ep)
     else:
         energy = 100e3
         lam = 0.037013
         ang = tuple(lam * 1e3 / s / n for s, n in zip(sampling, roi))      # so that op.sampling == sampling
-        dps = np.ones((j,) + roi, dtype=np.float32)
+        dps = np.ones(((j,) if grid is None else grid) + roi, dtype=np.float32)
         kw = {}
         if case["rotation"] is not None:
             kw["rotation_angle"] = case["rotation"]
